@@ -204,6 +204,7 @@ def run(ctx, replay_ops=None):
         "an io.Reader is modelled as a finite stream plus a finite script of per-call behaviours (any chunking, zero-length reads, EOF with or without data, a non-EOF error); a reader that stalls forever is outside the model",
         "currentMessageBytesRead (uint64) does not wrap (would need 2^64 bytes read)",
         "filter_no_false_positive / dedup through CheckIncomingMessage: the hash is injective on the messages considered (hypothesis of the theorem)",
+        "real-websocket peers (wsnew): the connection read limit SetReadLimit(MaxMessageLength) bounds tag+payload, so a frame longer than that closes the connection before delivery; this guard sits in the driver (removes deliveries only), not in the theorems",
         "read loop: websocket framing (NextReader), goroutines and channels are trusted; decompression is the identity (no compression negotiated in the harness); within-limit MI/TS payload handling is not modelled",
     ]
     # tie F: tag table and constants from the current source
